@@ -389,6 +389,71 @@ theorem C14_F14b_unguarded_statement_false :
     ⟨some [⟨.timer, .req (.setTimer "a" 5)⟩], []⟩ (by decide) _ rfl
   exact absurd this (by decide)
 
+/-! ### E. several wrapped instances of one protocol class alive in one process
+
+  OMNeT++ and the python simulator both create one wrapper per node from the same protocol class;
+  the callbacks of the nodes interleave.  "Nothing left over from earlier callbacks" and "the same
+  requests whether wrapped for the python simulator or for interop" are statements about ONE
+  protocol instance: they hold for it whatever the other instances (of either wrapper) are fed,
+  before, between and after its own callbacks. -/
+
+/-- For every protocol, every family of wrapper states and every interleaving: what instance `k`
+    returns / performs / forwards and the state it ends in are those of instance `k` driven ALONE
+    through the callbacks addressed to it — under both wrappers. -/
+theorem C14_instances_independent (P : XProto S σ) (acc : PProv S → Act S → Bool)
+    (iws : Nat → IW S σ) (pws : Nat → PW S σ) (steps : List (Nat × Int × Callback S)) (k : Nat) :
+    resultsOf k (irunMulti P iws steps).2 = (irun P (iws k) (stepsOf k steps)).2 ∧
+    (irunMulti P iws steps).1 k = (irun P (iws k) (stepsOf k steps)).1 ∧
+    resultsOf k (prunMulti acc P pws steps).2 = (prun acc P (pws k) (stepsOf k steps)).2 ∧
+    (prunMulti acc P pws steps).1 k = (prun acc P (pws k) (stepsOf k steps)).1 := by
+  have hi := runMulti_proj (istep P) iws steps k
+  have hp := runMulti_proj (pstep acc P) pws steps k
+  rw [← irun_eq_runSeq] at hi
+  rw [← prun_eq_runSeq] at hp
+  exact ⟨hi.1, hi.2, hp.1, hp.2⟩
+
+theorem mem_resultsOf {R : Type} (x : Nat × R) (rs : List (Nat × R)) (h : x ∈ rs) : x.2 ∈ resultsOf x.1 rs := by
+  simp only [resultsOf, List.mem_map, List.mem_filter]
+  exact ⟨x, ⟨h, by simp⟩, rfl⟩
+
+/-- part A among instances: in every interleaving of the callbacks of any number of interop-wrapped
+    instances of a program of the simulator model, EVERY callback returns exactly what its own
+    instance issued during it, and no instance is left with anything pending. -/
+theorem C14_returns_exactly_among_instances (P : Proto S σ) (ids : Nat → NodeId)
+    (steps : List (Nat × Int × Callback S)) :
+    (∀ x ∈ (irunMulti (XProto.ofProto P) (fun k => IW.init (XProto.ofProto P) (ids k)) steps).2,
+      x.2.ret = some (issued x.2.transcript)) ∧
+    ∀ k, ((irunMulti (XProto.ofProto P) (fun k => IW.init (XProto.ofProto P) (ids k)) steps).1 k).prov.consequences = [] := by
+  refine ⟨fun x hx => ?_, fun k => ?_⟩
+  · have hm := mem_resultsOf x _ hx
+    rw [(C14_instances_independent (XProto.ofProto P) (fun _ _ => true)
+      (fun k => IW.init (XProto.ofProto P) (ids k)) (fun k => PW.init (XProto.ofProto P) (ids k)) steps x.1).1] at hm
+    exact C14_returns_exactly_every_prog P (ids x.1) _ x.2 hm
+  · rw [(C14_instances_independent (XProto.ofProto P) (fun _ _ => true)
+      (fun k => IW.init (XProto.ofProto P) (ids k)) (fun k => PW.init (XProto.ofProto P) (ids k)) steps k).2.1]
+    exact C14_nothing_left_over_every_prog P (ids k) _
+
+/-- part B among instances: instance `k` of an acceptance-independent protocol performs the same
+    actions, callback by callback, and has forwarded (python) exactly what was returned to it
+    (interop), whatever the OTHER instances of either run were fed — the two runs need not even
+    contain the same other instances (`stepsI`, `stepsP` agree on the callbacks of `k` only). -/
+theorem C14_wrapper_equivalence_among_instances (P : LProto S σ) (ids : Nat → NodeId)
+    (acc : PProv S → Act S → Bool) (stepsI stepsP : List (Nat × Int × Callback S)) (k : Nat)
+    (hk : stepsOf k stepsI = stepsOf k stepsP) :
+    let py := prunMulti acc P.toX (fun j => PW.init P.toX (ids j)) stepsP
+    let io := irunMulti P.toX (fun j => IW.init P.toX (ids j)) stepsI
+    (py.1 k).prov.log.filterMap fwdConsequence = (returnedAll (resultsOf k io.2)).filter (fun c => !isTrack c) ∧
+    (resultsOf k py.2).map (fun tr => tr.map Prod.fst) = (resultsOf k io.2).map (fun r => r.transcript.map Prod.fst) := by
+  intro py io
+  have hI := C14_instances_independent P.toX acc (fun j => IW.init P.toX (ids j)) (fun j => PW.init P.toX (ids j)) stepsI k
+  have hP := C14_instances_independent P.toX acc (fun j => IW.init P.toX (ids j)) (fun j => PW.init P.toX (ids j)) stepsP k
+  show ((prunMulti acc P.toX (fun j => PW.init P.toX (ids j)) stepsP).1 k).prov.log.filterMap fwdConsequence
+      = (returnedAll (resultsOf k (irunMulti P.toX (fun j => IW.init P.toX (ids j)) stepsI).2)).filter (fun c => !isTrack c) ∧
+    (resultsOf k (prunMulti acc P.toX (fun j => PW.init P.toX (ids j)) stepsP).2).map (fun tr => tr.map Prod.fst)
+      = (resultsOf k (irunMulti P.toX (fun j => IW.init P.toX (ids j)) stepsI).2).map (fun r => r.transcript.map Prod.fst)
+  rw [hP.2.2.2, hP.2.2.1, hI.1, hk]
+  exact C14_wrapper_equivalence P (ids k) acc (stepsOf k stepsP)
+
 /-! ### non-vacuity -/
 
 /-- a protocol that, on every callback, sets a timer, writes a tracked variable, cancels (refused
@@ -406,6 +471,14 @@ example : (irun demo.toX (IW.init demo.toX 3) [(0, .initialize), (4, .timer "t")
 example : (prun (fun _ _ => true) demo.toX (PW.init demo.toX 3) [(0, .initialize), (4, .timer "t")]).1.prov.log =
     [(.timer, .setTimer "t" 1), (.timer, .cancelTimer "t"), (.communication, .broadcast "hi"),
      (.timer, .setTimer "t" 5), (.timer, .cancelTimer "t"), (.communication, .broadcast "hi")] := by
+  decide
+
+/-- two instances (ids 3 and 5) of `demo`, callbacks interleaved: each counts its own callbacks -/
+example : (irunMulti demo.toX (fun k => IW.init demo.toX (if k = 0 then 3 else 5))
+      [(0, 0, .initialize), (1, 0, .initialize), (1, 2, .timer "t"), (0, 4, .timer "t")]).2.map
+        (fun x => (x.1, x.2.ret.map (fun L => L.filter isTrack))) =
+    [(0, some [⟨.trackVariable, .track "n" "0"⟩]), (1, some [⟨.trackVariable, .track "n" "0"⟩]),
+     (1, some [⟨.trackVariable, .track "n" "1"⟩]), (0, some [⟨.trackVariable, .track "n" "1"⟩])] := by
   decide
 
 end C14
